@@ -18,7 +18,8 @@ CONSTANTS MaxCmds,     \* commands per history
           Docs,        \* subset of {"d1","d2","dWarn","dBad","dJunk"}
           HookKinds,   \* subset of {"ok","missing","fail"}
           Touches,     \* user paths the user may create between commands
-          MaxTouches   \* bound on user edits per history (only to keep emitted histories replayable; 99 = unbounded)
+          MaxTouches,  \* bound on user edits per history (only to keep emitted histories replayable; 99 = unbounded)
+          CrashPoints  \* steps BEFORE which the generating process may die (subset of the write steps; {} = no crashes)
 
 \* ---- documents
 Rejected(d)  == d \in {"dBad", "dJunk"}            \* dJunk: unparseable bytes (load); dBad: not an OpenAPI document (validate)
@@ -99,7 +100,12 @@ Exit     == /\ pc = "exit" /\ pc' = "idle" /\ code' = IF diag.err \/ (cmd.fow /\
             /\ hist' = Append(hist, [ev |-> "exit", code |-> IF diag.err \/ (cmd.fow /\ diag.warn) THEN 1 ELSE 0])
             /\ UNCHANGED <<fs, outdir, cmd, fs0, out0, diag, n>>
 
-Next == (\E c \in Cmds : Start(c)) \/ (\E p \in Touches : UserTouch(p)) \/ Load \/ Validate \/ Mkdir \/ Package \/ Metadata
+\* the process dies between two steps of Project.build: whatever was written stays, nothing is cleaned up, no exit event
+Crash    == /\ pc \in CrashPoints /\ pc' = "idle" /\ code' = 2
+            /\ hist' = Append(hist, [ev |-> "crash", at |-> pc])
+            /\ UNCHANGED <<fs, outdir, cmd, fs0, out0, diag, n>>
+
+Next == Crash \/ (\E c \in Cmds : Start(c)) \/ (\E p \in Touches : UserTouch(p)) \/ Load \/ Validate \/ Mkdir \/ Package \/ Metadata
         \/ RmModels \/ Models \/ Client \/ RmApi \/ Api \/ Hooks \/ Exit
 Spec == Init /\ [][Next]_vars /\ WF_vars(Load \/ Validate \/ Mkdir \/ Package \/ Metadata \/ RmModels \/ Models \/ Client \/ RmApi \/ Api \/ Hooks \/ Exit)
 
